@@ -55,7 +55,7 @@ CONSTANTS Threads,    \* thread ids
           Sizes,      \* request sizes (representatives); the limit itself is always added
           Kinds,      \* subset of {"try","alloc","resize","drop"}
           Spurious,   \* BOOLEAN: weak CAS may fail spuriously
-          Buggy,      \* "none" | "toctou" | "nostore"   (sanity variants, see bottom)
+          Buggy,      \* "none" | "toctou" | "hoist" | "nostore"   (sanity variants)
           Hist,       \* BOOLEAN: carry the behaviour in the state (replay emission)
           Canon       \* BOOLEAN: canonical thread naming / final drop order (emission only)
 
@@ -123,6 +123,8 @@ DropOk(t, k) == IF Canon /\ OpsDone THEN k = Len(res[t]) /\ \A o \in Threads : o
 CanStart(t) == Idle(t) /\ nops[t] < MaxOps /\ StartOk(t)
 Started(t) == nops' = [nops EXCEPT ![t] = @ + 1]
 GiveUp(c, s) == AddOverflows(c, s) \/ ULt(max, c + s)
+\* the test made after a FAILED CAS (sanity variant "hoist": limit checked only before the loop)
+GiveUpRetry(c, s) == IF Buggy = "hoist" THEN AddOverflows(c, s) ELSE GiveUp(c, s)
 ToIdle(t) == /\ pc' = [pc EXCEPT ![t] = "idle"]
              /\ cur' = [cur EXCEPT ![t] = 0]
              /\ req' = [req EXCEPT ![t] = 0]
@@ -157,14 +159,14 @@ TryCasOk(t) ==
 
 TryCasFailRetry(t) ==
   /\ Buggy # "toctou"
-  /\ pc[t] = "cas" /\ used # cur[t] /\ ~GiveUp(used, req[t])
+  /\ pc[t] = "cas" /\ used # cur[t] /\ ~GiveUpRetry(used, req[t])
   /\ cur' = [cur EXCEPT ![t] = used]
   /\ UNCHANGED <<used, max, pc, req, res, nops, uflow, badgrant>>
   /\ Log(t, A_CAS, 0, 0, 2)
 
 TryCasFailGiveUp(t) ==
   /\ Buggy # "toctou"
-  /\ pc[t] = "cas" /\ used # cur[t] /\ GiveUp(used, req[t])
+  /\ pc[t] = "cas" /\ used # cur[t] /\ GiveUpRetry(used, req[t])
   /\ ToIdle(t)
   /\ UNCHANGED <<used, max, res, nops, uflow, badgrant>>
   /\ Log(t, A_CAS, 0, 0, 0)
